@@ -277,6 +277,9 @@ def run_copy(ctx):
         if key == "":
             key = "k"
         vals.append((bk, key, ver))
+    # the 1024-byte limit is on the key, not on its escaped spelling: long keys whose encoding is up to three times as long
+    for k_ in ["\u4e2d" * 120, " " * 342, " " * 1024, "\u00e9" * 512, "k" * 1024, "k" * 1025, " " * 1025, "a/b c/" * 170, "%" * 1024, "?" * 400 + "=" * 400]:
+        vals.append(("my-bucket", k_, rng.choice([None, "v 1"])))
     # format, then parse what was formatted: must name the same bucket, key and version
     fc = [dict(op="copy_format", bucket=b_.encode().hex(), key=k.encode().hex(), version=None if v is None else v.encode().hex()) for b_, k, v in vals]
     fimpl = [x.get("out", "panic") for x in vlib.run_impl("c14", fc)]
